@@ -257,6 +257,9 @@ func universeObserve(u *gengotypes.Universe, p gengotypes.Package) map[string]an
 			srcOK := true
 			for _, f := range p.Files() {
 				fn := p.FileSet().Position(f.Package).Filename
+				if !strings.HasPrefix(fn, p.Module().Dir+string(filepath.Separator)) {
+					continue // a file cgo generated into the build cache: not one of the package's source files
+				}
 				// every position of the file counts: its first byte (a licence header, a build constraint), the package clause,
 				// every comment (package documentation, the comment after the last declaration), its last byte
 				probes := []token.Pos{f.FileStart, f.Package, f.End() - 1, f.FileEnd - 1}
@@ -266,6 +269,9 @@ func universeObserve(u *gengotypes.Universe, p gengotypes.Package) map[string]an
 				for _, pos := range probes {
 					if !pos.IsValid() {
 						continue
+					}
+					if !strings.HasPrefix(p.FileSet().Position(pos).Filename, p.Module().Dir+string(filepath.Separator)) {
+						continue // (cgo: the compiled form of a file lies in the build cache until its first //line directive)
 					}
 					if got := u.LocateInPackage(pos); got != p {
 						locBad = append(locBad, fn)
@@ -356,6 +362,11 @@ func (universeFam) ExecAll(cases []core.CaseIn, seed int64, emit func(c core.Cas
 			srcs[j] = src
 			files[fmt.Sprintf("u/s%d/s.go", j)] = src
 		}
+		if i == 0 {
+			// a package whose ONLY file imports "C" (a cgo wrapper): what go/packages compiles of it lies in the build cache, its
+			// source directory is where w.go is
+			files["u/cgow/w.go"] = "// Package cgow wraps a C constant.\npackage cgow\n\n/*\n#define ANSWER 42\n*/\nimport \"C\"\n\n// W is declared in a file that imports C.\ntype W struct{ N int }\n\n// Answer returns the constant.\nfunc Answer() int { return int(C.ANSWER) }\n"
+		}
 		if err := core.WriteFiles(dir, files); err != nil {
 			return err
 		}
@@ -375,7 +386,7 @@ func (universeFam) ExecAll(cases []core.CaseIn, seed int64, emit func(c core.Cas
 			emit(synth[j], map[string]any{"kind": "synthetic", "features": synthCases[j].Features, "pkg": p.Pkg().Path()}, map[string]any{"source": srcs[j]}, universeObserve(u, p))
 		}
 		// the helper chain is part of the universe too (registered through imports only when a package uses it)
-		for _, h := range []string{"example.com/u/h1", "example.com/u/h2", "example.com/u/h3", "example.com/dep", "example.com/dep/sub"} {
+		for _, h := range []string{"example.com/u/h1", "example.com/u/h2", "example.com/u/h3", "example.com/dep", "example.com/dep/sub", "example.com/u/cgow"} {
 			if p := u.Package(h); p != nil {
 				emit(synth[i], map[string]any{"kind": "synthetic", "features": []string{"helper"}, "pkg": p.Pkg().Path()}, map[string]any{}, universeObserve(u, p))
 			}
